@@ -25,5 +25,6 @@ Conforms(in, obs) ==
   /\ \A i \in DOMAIN in.tests : TestOK(in, in.tests[i], obs.res[i], obs)
 
 Describe(in) == [note |-> "expected values depend on the timestamps in the observation; see the replay"]
+Beyond(in) == FALSE
 INSTANCE TraceCheck
 =============================================================================
